@@ -103,6 +103,10 @@ type splitOut struct {
 }
 
 type World struct {
+	idByKey   map[string]string // request key (j@ts) -> transaction id
+	attempted map[string]int64  // id -> tip timestamp read when its admission was attempted by submit() while judging
+	judging   bool
+
 	S       *node.Settings
 	H       *node.Node
 	Nbh     *network.Neighborhood
@@ -316,5 +320,9 @@ func (w *World) request(j int, ts int64) ([]byte, string, error) {
 	}
 	w.reqCache[key] = b
 	w.txIds[tx.Id()] = true
+	if w.idByKey == nil {
+		w.idByKey = map[string]string{}
+	}
+	w.idByKey[key] = tx.Id()
 	return b, key, nil
 }
